@@ -39,6 +39,15 @@ func canon(v ssa.Value) ssa.Value {
 		if !ok || u.Op != token.MUL {
 			return v
 		}
+		// a field of a local struct that is set once (a struct literal filled in, then read back;
+		// or a by-value copy of such a struct, as the inlining of a helper taking it leaves behind)
+		if fa, isFA := u.X.(*ssa.FieldAddr); isFA && canonFields {
+			if w := localStructField(fa.X, fa.Field, 0, u); w != nil {
+				v = w
+				continue
+			}
+			return v
+		}
 		al, ok := u.X.(*ssa.Alloc)
 		if !ok {
 			return v
@@ -60,6 +69,70 @@ func canon(v ssa.Value) ssa.Value {
 }
 
 func sameValue(a, b ssa.Value) bool { return canon(a) == canon(b) }
+
+// canonFields switches on, for the rules that ask for it (canonF), the resolution of once-set fields
+// of local structs in canon. It is off by default: most rules identify a quantity BY its field.
+var canonFields bool
+
+// canonF is canon that also reads through once-set fields of local, non-escaping structs.
+func canonF(v ssa.Value) ssa.Value {
+	old := canonFields
+	canonFields = true
+	defer func() { canonFields = old }()
+	return canon(v)
+}
+
+// localStructField: the one value stored into field k of the local struct base points to, when base
+// is an Alloc that does not escape (only field accesses, whole-struct loads and stores).
+func localStructField(base ssa.Value, k int, depth int, load ssa.Instruction) ssa.Value {
+	al, ok := base.(*ssa.Alloc)
+	if !ok || depth > 4 || al.Referrers() == nil {
+		return nil
+	}
+	if _, isStruct := al.Type().Underlying().(*types.Pointer).Elem().Underlying().(*types.Struct); !isStruct {
+		return nil
+	}
+	var fieldStores, whole []*ssa.Store
+	for _, ref := range *al.Referrers() {
+		switch x := ref.(type) {
+		case *ssa.FieldAddr:
+			if x.Field != k || x.Referrers() == nil {
+				continue
+			}
+			for _, r2 := range *x.Referrers() {
+				switch y := r2.(type) {
+				case *ssa.Store:
+					if y.Addr != ssa.Value(x) {
+						return nil // the field's address is stored somewhere
+					}
+					fieldStores = append(fieldStores, y)
+				case *ssa.UnOp, *ssa.DebugRef:
+				default:
+					return nil
+				}
+			}
+		case *ssa.Store:
+			if x.Addr != ssa.Value(al) {
+				return nil
+			}
+			whole = append(whole, x)
+		case *ssa.UnOp, *ssa.DebugRef:
+		default:
+			return nil // the struct's address escapes
+		}
+	}
+	switch {
+	case len(fieldStores) == 1 && len(whole) == 0:
+		if setOnceBefore(al, fieldStores[0], load) {
+			return fieldStores[0].Val
+		}
+	case len(fieldStores) == 0 && len(whole) == 1:
+		if l, ok := whole[0].Val.(*ssa.UnOp); ok && l.Op == token.MUL && setOnceBefore(al, whole[0], load) {
+			return localStructField(l.X, k, depth+1, whole[0])
+		}
+	}
+	return nil
+}
 
 // isResultMerge: phi merges the results of an inlined helper (its comment is a result temporary's name).
 func isResultMerge(phi *ssa.Phi) bool {
@@ -187,7 +260,16 @@ type escape struct {
 // passes the value on only along incoming edges that remain traversable.
 func unsanitisedReturns(fn *ssa.Function, at ssa.Instruction, src ssa.Value, cut EdgeSet) []escape {
 	out0 := unwrappedEscapes(fn, src)
-	return append(out0, unsanitisedReturns1(fn, at, src, cut)...)
+	// where src itself was found to be nil it is not the value the caller worries about (a nil
+	// error that reaches a return through a merged result variable is the success outcome)
+	cut2 := EdgeSet{}
+	for e := range cut {
+		cut2[e] = true
+	}
+	for _, e := range condEdges(fn, errNilCond(func(v ssa.Value) bool { return v == src || strip(v) == src }, true)) {
+		cut2[e] = true
+	}
+	return append(out0, unsanitisedReturns1(fn, at, src, cut2)...)
 }
 
 // unwrappedEscapes: `errors.Unwrap(err)` (or errors.Cause-like helpers of the same name)
@@ -506,4 +588,40 @@ func freeVarBinding(fv *ssa.FreeVar) ssa.Value {
 		return found
 	}
 	return nil
+}
+
+// setOnceBefore: the store happens before the load on every path, and never again after it
+// (it dominates the load and cannot be reached from it without the struct being allocated anew).
+func setOnceBefore(al *ssa.Alloc, st *ssa.Store, load ssa.Instruction) bool {
+	sb, lb := st.Block(), load.Block()
+	if sb == nil || lb == nil || sb.Parent() != lb.Parent() {
+		return false
+	}
+	if sb == lb {
+		if instrIndex(st) > instrIndex(load) {
+			return false
+		}
+	} else if !sb.Dominates(lb) {
+		return false
+	}
+	// from the load onwards the store is not executed again
+	seen := map[*ssa.BasicBlock]bool{}
+	work := append([]*ssa.BasicBlock{}, lb.Succs...)
+	for len(work) > 0 {
+		b := work[len(work)-1]
+		work = work[:len(work)-1]
+		if seen[b] {
+			continue
+		}
+		seen[b] = true
+		// a new iteration allocates a new struct: the store that follows the allocation fills that one
+		if b == al.Block() && (b != sb || instrIndex(al) < instrIndex(st)) {
+			continue
+		}
+		if b == sb {
+			return false
+		}
+		work = append(work, b.Succs...)
+	}
+	return true
 }
